@@ -187,6 +187,23 @@ def run(ctx):
                               {"a": "rrtp", "s": 2, "w": 100, "id": 1, "len": 30, "shape": 0, "tw": 100, "fail": False, "rep": rng.choice([1, 3])},
                               {"a": "seq", "rep": 1, "seq": [{"a": "wait", "ms": rng.choice([2, 5, 20])}, {"a": "close"}]}]},
                           {"a": "wait", "ms": 3}]})
+    # ... and by a loop that IS running but busy inside a slow RTCP write when Close arrives: reads parked at the hand-off
+    # meanwhile must come back as well
+    for kinds in (["twccsend"], ["rfc8888"], ["nackgen"], ["rrecv"], ["rfc8888", "twccsend", "nackgen", "rrecv"], ["stats", "twccsend"]):
+        for _ in range(2 if ctx.quick else 10):
+            def rd(s, w):
+                return {"a": "rrtp", "s": s, "w": w, "id": 1, "len": 30, "shape": 0, "tw": w, "fail": False, "rep": 12, "gap": 300}
+            racing.append({
+                "members": [{"k": k, "o": {"ivl": 1, "size": 64}} for k in kinds], "watch": 4000, "settle": 10,
+                "steps": [{"a": "bindw"}, {"a": "bindr"}, {"a": "bindm", "s": 2, "nack": True, "twcc": 7, "pli": False},
+                          {"a": "bindm", "s": 4, "nack": True, "twcc": 7, "pli": False},
+                          {"a": "sloww", "ms": rng.choice([15, 30])},
+                          {"a": "rrtp", "s": 2, "w": 100, "id": 1, "len": 30, "shape": 0, "tw": 100, "fail": False},
+                          {"a": "rrtp", "s": 2, "w": 103, "id": 1, "len": 30, "shape": 0, "tw": 103, "fail": False},
+                          {"a": "wait", "ms": 4},
+                          {"a": "par", "par": [rd(2, 110), rd(4, 300), rd(2, 500),
+                                               {"a": "seq", "rep": 1, "seq": [{"a": "wait", "ms": rng.choice([1, 3, 6])}, {"a": "close"}]}]},
+                          {"a": "sloww", "ms": 0}, {"a": "wait", "ms": 3}]})
     for i in range(0, len(racing), 60):
         vlib.run_batch(ctx, tag="G-close-racing-%d" % (i // 60), scripts=racing[i:i + 60], pkg_rel="", pkgname="interceptor_test",
                        files=["zz_verif_univ_test.go", "common:zz_verif_pkt_test.go.tpl"], test="TestVerifUnivExec",
